@@ -349,38 +349,92 @@ func mayHeldAt(f *ssa.Function, at ssa.Instruction) []lockOp {
 	return out
 }
 
-// mustHeldAt reports whether the lock with the given access path (exclusive) is held on every
-// path reaching `at`: an acquire dominates `at` and no release lies on any path from it to `at`.
+// mustHeldAt reports whether the lock with the given access path is held on every path reaching
+// `at`: forward must-analysis of lock sets over the CFG (Lock/RLock add, Unlock/RUnlock remove,
+// deferred unlocks release only at exit, intersection at joins).
 func mustHeldAt(f *ssa.Function, at ssa.Instruction, path string, exclusive bool) bool {
-	ops := lockOps(f)
-	for _, a := range ops {
-		if !a.acquire || a.deferred || a.path != path || a.exclusive != exclusive {
+	key := func(p string, ex bool) string {
+		if ex {
+			return "X:" + p
+		}
+		return "R:" + p
+	}
+	ops := map[ssa.Instruction]lockOp{}
+	all := map[string]bool{}
+	for _, o := range lockOps(f) {
+		if o.deferred {
 			continue
 		}
-		if !flow.Dominates(a.in, at) {
-			continue
+		ops[o.in] = o
+		all[key(o.path, o.exclusive)] = true
+	}
+	want := key(path, exclusive)
+	if !all[want] {
+		return false
+	}
+	copySet := func(m map[string]bool) map[string]bool {
+		n := map[string]bool{}
+		for k := range m {
+			n[k] = true
 		}
-		// no release on a path acquire -> at
-		released := false
-		for _, r := range ops {
-			if r.acquire || r.deferred || r.path != path || r.exclusive != exclusive {
+		return n
+	}
+	out := map[*ssa.BasicBlock]map[string]bool{}
+	for _, b := range f.Blocks {
+		out[b] = copySet(all) // top
+	}
+	transfer := func(b *ssa.BasicBlock, in map[string]bool, stop ssa.Instruction) (map[string]bool, bool) {
+		cur := copySet(in)
+		for _, x := range b.Instrs {
+			if x == stop {
+				return cur, true
+			}
+			if o, ok := ops[x]; ok {
+				if o.acquire {
+					cur[key(o.path, o.exclusive)] = true
+				} else {
+					delete(cur, key(o.path, o.exclusive))
+				}
+			}
+		}
+		return cur, false
+	}
+	inOf := func(b *ssa.BasicBlock) map[string]bool {
+		if len(b.Preds) == 0 {
+			return map[string]bool{}
+		}
+		var in map[string]bool
+		for _, p := range b.Preds {
+			if in == nil {
+				in = copySet(out[p])
 				continue
 			}
-			// is r on some path from a to at?
-			p1 := flow.PathAvoiding(f, a.in, func(in ssa.Instruction) bool { return in == r.in }, func(in ssa.Instruction) bool { return in == at })
-			if p1 == nil {
-				continue
-			}
-			p2 := flow.PathAvoiding(f, r.in, func(in ssa.Instruction) bool { return in == at }, func(in ssa.Instruction) bool { return in == a.in })
-			if p2 != nil {
-				released = true
+			for k := range in {
+				if !out[p][k] {
+					delete(in, k)
+				}
 			}
 		}
-		if !released {
-			return true
+		return in
+	}
+	for changed, iter := true, 0; changed && iter < 50; iter++ {
+		changed = false
+		for _, b := range f.Blocks {
+			o, _ := transfer(b, inOf(b), nil)
+			if len(o) != len(out[b]) {
+				changed = true
+			} else {
+				for k := range o {
+					if !out[b][k] {
+						changed = true
+					}
+				}
+			}
+			out[b] = o
 		}
 	}
-	return false
+	st, found := transfer(at.Block(), inOf(at.Block()), at)
+	return found && st[want]
 }
 
 func short(s string, n int) string {
@@ -394,13 +448,19 @@ var _ = strings.Join
 
 // heldOnEntry: names of mutex fields that are exclusively held at every library call site of the
 // (unexported, statically called) function f — the E3 "held on entry" summary, depth 1.
-func (c *Ctx) heldOnEntry(f *ssa.Function) []string {
+func (c *Ctx) heldOnEntry(f *ssa.Function) []string { return c.heldOnEntryIn(f, nil) }
+
+// heldOnEntryIn restricts the call sites considered to callers in the given set (nil = all).
+func (c *Ctx) heldOnEntryIn(f *ssa.Function, callers map[*ssa.Function]bool) []string {
 	if f.Object() != nil && f.Object().Exported() {
 		return nil
 	}
 	var common map[string]bool
 	sites := 0
 	for _, caller := range c.P.LibraryFuncs() {
+		if callers != nil && !callers[caller] {
+			continue
+		}
 		for _, ci := range flow.CallInstrs(caller) {
 			if flow.StaticCallee(ci) != f {
 				continue
